@@ -7,18 +7,18 @@
   NumUsedRegisters, wanted and produced result count.  Standing assumption of the Model: registry capacity
   suffices (growth is C12's).
 -/
-import GLua.Proofs.CallFrame
+import GLua.Proofs.CallFrameRun
+import GLua.Proofs.CallCompileRet
 
 namespace GLua.Props.C02
 open GLua GLua.CallFrame GLua.CallFrame.Reg GLua.Adjust
 
 /-! ### result delivery: copyReturnValues / OP_RETURN -/
 
-/-- what the `B` operand of OP_RETURN says about the values `vals` available from register `start` on:
+
+/- what the `B` operand of OP_RETURN says about the values `vals` available from register `start` on:
     `B = 1` none, `B ≥ 2` exactly `B-1` registers (below top), `B = 0` everything up to top. -/
-def RetAvail (r : Reg) (start b : Nat) (vals : List OVal) : Prop :=
-  (b = 1 → vals = []) ∧ (b ≥ 2 → vals.length = b - 1 ∧ start + (b - 1) ≤ r.top) ∧
-  (b = 0 → start ≤ r.top ∧ vals.length = r.top - start)
+export GLua.CallFrame.Run (RetAvail)
 
 /-- **copyReturnValues_adjusts** — for the three encodings of the available count (`B = 1`, `B > 1`, `B = 0`) and
     every wanted count `n`: the destination window is exactly `adjust vals n` (truncated / nil-padded, no stale
@@ -30,91 +30,8 @@ theorem copyReturnValues_adjusts (r : Reg) (regv start n b : Nat) (vals : List O
     (copyReturnValues r regv start n b).top = regv + n ∧
     (copyReturnValues r regv start n b).window regv n = (adjust vals (some n)).map some ∧
     (∀ j, j < regv → (copyReturnValues r regv start n b).arr j = r.arr j) ∧
-    (∀ j, regv + n ≤ j → j < r.top → (copyReturnValues r regv start n b).arr j = goNil) := by
-  obtain ⟨h1, h2, h0⟩ := hav
-  have hsrc := arr_of_window r start vals hv
-  have hcond : ((regv : Nat) : Int) ≤ ((start : Nat) : Int) ∨ r.effLimit (-1) ≤ ((regv : Nat) : Int) := Or.inl (by omega)
-  by_cases hb1 : b = 1
-  · -- B = 1: FillNil
-    have hvals := h1 hb1
-    subst hvals
-    simp only [copyReturnValues, hb1, if_true]
-    refine ⟨rfl, ?_, ?_, ?_⟩
-    · apply window_eq_adjust
-      intro i hi
-      simp only [fillNil]
-      rw [if_pos ⟨by omega, by omega⟩]; simp [lnil]
-    · intro j hj
-      simp only [fillNil]
-      rw [if_neg (by omega), if_neg (by omega)]
-    · intro j hj1 hj2
-      simp only [fillNil]
-      rw [if_neg (by omega), if_pos ⟨hj1, hj2⟩]
-  · simp only [copyReturnValues, hb1, if_false]
-    -- the CopyRange part, pointwise
-    have hcr : ∀ j, (r.copyRange regv (start : Int) (-1) n).arr j =
-        if regv + n ≤ j ∧ j < r.top then goNil
-        else if regv ≤ j ∧ j < regv + n then srcVal r (start : Int) (r.top : Int) (j - regv) else r.arr j := by
-      intro j
-      rw [copyRange_arr r regv _ _ n hcond j, effLimit_neg1]
-    by_cases hb0 : b = 0
-    · -- B = 0: everything up to top
-      obtain ⟨hst, hlen⟩ := h0 hb0
-      have hnf : ¬ (b > 1 ∧ n > b - 1) := by omega
-      simp only [hnf, if_false]
-      refine ⟨rfl, ?_, ?_, ?_⟩
-      · apply window_eq_adjust
-        intro i hi
-        rw [hcr, if_neg (by omega), if_pos ⟨by omega, by omega⟩]
-        simp only [srcVal, Nat.add_sub_cancel_left]
-        by_cases hiv : i < vals.length
-        · rw [if_neg (by omega)]
-          have : ((start : Int) + (i : Int)).toNat = start + i := by omega
-          rw [this]; exact hsrc i hiv
-        · rw [if_pos (Or.inl (by omega))]
-          have : vals[i]? = none := by simp; omega
-          simp [this, lnil]
-      · intro j hj; rw [hcr, if_neg (by omega), if_neg (by omega)]
-      · intro j hj1 hj2; rw [hcr, if_pos ⟨hj1, hj2⟩]
-    · -- B ≥ 2
-      have hb2 : b ≥ 2 := by omega
-      obtain ⟨hlen, htop⟩ := h2 hb2
-      by_cases hn : b > 1 ∧ n > b - 1
-      · simp only [hn, and_self, if_true]
-        refine ⟨by simp only [fillNil]; omega, ?_, ?_, ?_⟩
-        · apply window_eq_adjust
-          intro i hi
-          simp only [fillNil]
-          by_cases hiv : i < vals.length
-          · rw [if_neg (by omega), if_neg (by simp only [copyRange_top]; omega)]
-            rw [hcr, if_neg (by omega), if_pos ⟨by omega, by omega⟩]
-            simp only [srcVal, Nat.add_sub_cancel_left]
-            rw [if_neg (by omega)]
-            have : ((start : Int) + (i : Int)).toNat = start + i := by omega
-            rw [this]; exact hsrc i hiv
-          · rw [if_pos ⟨by omega, by omega⟩]
-            have : vals[i]? = none := by simp; omega
-            simp [this, lnil]
-        · intro j hj
-          simp only [fillNil]
-          rw [if_neg (by omega), if_neg (by simp only [copyRange_top]; omega)]
-          rw [hcr, if_neg (by omega), if_neg (by omega)]
-        · intro j hj1 hj2
-          simp only [fillNil]
-          rw [if_neg (by omega), if_neg (by simp only [copyRange_top]; omega)]
-          rw [hcr, if_pos ⟨hj1, hj2⟩]
-      · simp only [hn, if_false]
-        have hnle : n ≤ b - 1 := by omega
-        refine ⟨rfl, ?_, ?_, ?_⟩
-        · apply window_eq_adjust
-          intro i hi
-          rw [hcr, if_neg (by omega), if_pos ⟨by omega, by omega⟩]
-          simp only [srcVal, Nat.add_sub_cancel_left]
-          rw [if_neg (by omega)]
-          have : ((start : Int) + (i : Int)).toNat = start + i := by omega
-          rw [this]; exact hsrc i (by omega)
-        · intro j hj; rw [hcr, if_neg (by omega), if_neg (by omega)]
-        · intro j hj1 hj2; rw [hcr, if_pos ⟨hj1, hj2⟩]
+    (∀ j, regv + n ≤ j → j < r.top → (copyReturnValues r regv start n b).arr j = goNil) :=
+  Run.copyReturnValues_adjusts r regv start n b vals hle hav hv
 
 /-- **opReturn_delivers** — OP_RETURN pops exactly one frame and leaves at the frame's `ReturnBase` the returned
     values adjusted to the caller's wish `cf.NRet` (`none` = MultRet = all of them). -/
@@ -125,33 +42,11 @@ theorem opReturn_delivers (s : St) (cf : Frame) (rest : List Frame) (A B : Nat) 
     ∃ s', opReturn s A B = .ok s' ∧ s'.stack = rest ∧ s'.sp + 1 = s.sp ∧
       s'.reg.top = cf.returnBase + (adjust vals cf.nret).length ∧
       s'.reg.window cf.returnBase (adjust vals cf.nret).length = (adjust vals cf.nret).map some ∧
-      (∀ j, j < cf.returnBase → s'.reg.arr j = s.reg.arr j) := by
-  have hn : decodeNRetVals s.reg.top (cf.localBase + A) B = vals.length := by
-    obtain ⟨h1, h2, h0⟩ := hav
-    simp only [decodeNRetVals]
-    by_cases hb0 : B = 0
-    · simp [hb0, (h0 hb0).2]
-    · by_cases hb1 : B = 1
-      · simp [hb1, h1 hb1]
-      · simp [hb0, (h2 (by omega)).1]
-  refine ⟨_, by simp only [opReturn, hst]; rfl, by rfl, by simp [St.sp, hst], ?_⟩
-  have key := copyReturnValues_adjusts s.reg cf.returnBase (cf.localBase + A)
-    (cf.nret.getD (decodeNRetVals s.reg.top (cf.localBase + A) B)) B vals hle hav hv
-  have hlen : (adjust vals cf.nret).length = cf.nret.getD vals.length := by
-    cases hc : cf.nret with
-    | none => simp [adjust]
-    | some n => simp [adjust_length]
-  have hadj : adjust vals cf.nret = adjust vals (some (cf.nret.getD vals.length)) := by
-    cases hc : cf.nret with
-    | none => simp [adjust]
-    | some n => simp
-  rw [hn] at key
-  simp only [hn]
-  rw [hlen]
-  refine ⟨key.1, ?_, key.2.2.1⟩
-  rw [hadj]; exact key.2.1
+      (∀ j, j < cf.returnBase → s'.reg.arr j = s.reg.arr j) :=
+  Run.opReturn_delivers s cf rest A B vals hst hle hav hv
 
 /-! ### host functions: callGFunction -/
+
 
 /-- **gfunction_returns_topmost** — a host function that returns `k` (and has at least `k` values above the
     slot its results go to) delivers exactly its top-most `k` stack values, adjusted to the frame's `NRet`, at
@@ -162,45 +57,15 @@ theorem gfunction_returns_topmost (s : St) (frame : Frame) (rest : List Frame) (
     ∃ s', gReturn s k false = .ok s' ∧ s'.stack = rest ∧
       s'.reg.top = frame.returnBase + (adjust vals frame.nret).length ∧
       s'.reg.window frame.returnBase (adjust vals frame.nret).length = (adjust vals frame.nret).map some ∧
-      (∀ j, j < frame.returnBase → s'.reg.arr j = s.reg.arr j) := by
-  subst hk
-  have hsrc := arr_of_window s.reg (s.reg.top - vals.length) vals hv
-  have hstart : ((s.reg.top : Int) - (vals.length : Int)) = ((s.reg.top - vals.length : Nat) : Int) := by omega
-  have hcond : ((frame.returnBase : Nat) : Int) ≤ ((s.reg.top - vals.length : Nat) : Int) ∨
-      s.reg.effLimit (-1) ≤ ((frame.returnBase : Nat) : Int) := Or.inl (by omega)
-  have hlen : (adjust vals frame.nret).length = frame.nret.getD vals.length := by
-    cases hc : frame.nret with
-    | none => simp [adjust]
-    | some n => simp [adjust_length]
-  have hadj : adjust vals frame.nret = adjust vals (some (frame.nret.getD vals.length)) := by
-    cases hc : frame.nret with
-    | none => simp [adjust]
-    | some n => simp
-  refine ⟨_, by simp only [gReturn, hst]; rfl, by rfl, ?_, ?_, ?_⟩
-  · simp only [copyRange_top, hlen]
-  · simp only [hlen]
-    rw [hadj]
-    apply window_eq_adjust
-    intro i hi
-    rw [hstart, copyRange_arr _ _ _ _ _ hcond, effLimit_neg1, if_neg (by omega), if_pos ⟨by omega, by omega⟩]
-    simp only [srcVal, Nat.add_sub_cancel_left]
-    by_cases hiv : i < vals.length
-    · rw [if_neg (by omega)]
-      have : (((s.reg.top - vals.length : Nat) : Int) + (i : Int)).toNat = s.reg.top - vals.length + i := by omega
-      rw [this]; exact hsrc i hiv
-    · rw [if_pos (Or.inl (by omega))]
-      have : vals[i]? = none := by simp; omega
-      simp [this, lnil]
-  · intro j hj
-    rw [hstart, copyRange_arr _ _ _ _ _ hcond, if_neg (by omega), if_neg (by omega)]
+      (∀ j, j < frame.returnBase → s'.reg.arr j = s.reg.arr j) :=
+  Run.gfunction_returns_topmost s frame rest k vals hst hk hroom hv
 
 /-! ### OP_VARARG -/
 
-/-- the frame of a running vararg function as `initCallFrame` leaves it: the extra arguments sit between the
+
+/- the frame of a running vararg function as `initCallFrame` leaves it: the extra arguments sit between the
     (nil-ed) original parameter slots and `LocalBase`. -/
-def VarargFrame (r : Reg) (cf : Frame) (extra : List OVal) : Prop :=
-  cf.base + cf.fn.np + 1 + extra.length = cf.localBase ∧ cf.nargs - cf.fn.np = extra.length ∧
-  cf.localBase ≤ r.top ∧ r.window (cf.base + cf.fn.np + 1) extra.length = extra.map some
+export GLua.CallFrame.Run (VarargFrame)
 
 /-- **vararg_spec** — `OP_VARARG A B` leaves in `R[A]…` exactly `adjust extra (B-1)` (all of them for `B = 0`),
     `top` just above the last one, registers below `R[A]` untouched. -/
@@ -209,41 +74,11 @@ theorem vararg_spec (s : St) (cf : Frame) (rest : List Frame) (A B : Nat) (extra
     ∃ s', opVararg s A B = .ok s' ∧ s'.stack = s.stack ∧
       s'.reg.top = cf.localBase + A + (adjust extra (decodeNRet B)).length ∧
       s'.reg.window (cf.localBase + A) (adjust extra (decodeNRet B)).length = (adjust extra (decodeNRet B)).map some ∧
-      (∀ j, j < cf.localBase + A → s'.reg.arr j = s.reg.arr j) := by
-  obtain ⟨hlb, hna, htop, hv⟩ := hf
-  have hsrc := arr_of_window s.reg _ extra hv
-  have hwant : (if B = 0 then cf.nargs - cf.fn.np else B - 1) = (adjust extra (decodeNRet B)).length := by
-    by_cases hb : B = 0
-    · simp [hb, decodeNRet, adjust, hna]
-    · simp [hb, decodeNRet, adjust_length]
-  have hadj : adjust extra (decodeNRet B) = adjust extra (some (adjust extra (decodeNRet B)).length) := by
-    by_cases hb : B = 0
-    · simp [hb, decodeNRet, adjust]
-    · simp [hb, decodeNRet, adjust_length]
-  have hlim : s.reg.effLimit ((cf.localBase : Nat) : Int) = ((cf.localBase : Nat) : Int) := effLimit_le_top _ _ htop
-  have hcond : (((cf.localBase + A : Nat)) : Int) ≤ ((cf.base + cf.fn.np + 1 : Nat) : Int) ∨
-      s.reg.effLimit ((cf.localBase : Nat) : Int) ≤ ((cf.localBase + A : Nat) : Int) := Or.inr (by rw [hlim]; omega)
-  generalize hm : (adjust extra (decodeNRet B)).length = m at hwant hadj ⊢
-  refine ⟨_, by simp only [opVararg, hst]; rfl, by rw [hst], ?_, ?_, ?_⟩
-  · simp only [copyRange_top, hwant]
-  · simp only [hwant]
-    rw [hadj]
-    apply window_eq_adjust
-    intro i hi
-    rw [copyRange_arr _ _ _ _ _ hcond, hlim, if_neg (by omega), if_pos ⟨by omega, by omega⟩]
-    simp only [srcVal, Nat.add_sub_cancel_left]
-    by_cases hiv : i < extra.length
-    · rw [if_neg (by omega)]
-      have : (((cf.base + cf.fn.np + 1 : Nat) : Int) + (i : Int)).toNat = cf.base + cf.fn.np + 1 + i := by omega
-      rw [this]; exact hsrc i hiv
-    · rw [if_pos (Or.inl (by omega))]
-      have : extra[i]? = none := by simp; omega
-      simp [this, lnil]
-  · intro j hj
-    simp only [hwant]
-    rw [copyRange_arr _ _ _ _ _ hcond, if_neg (by omega), if_neg (by omega)]
+      (∀ j, j < cf.localBase + A → s'.reg.arr j = s.reg.arr j) :=
+  Run.vararg_spec s cf rest A B extra hst hf
 
 /-! ### OP_SELF, OP_SETLIST -/
+
 
 /-- **self_inserts_receiver** — `OP_SELF A B C` puts the method in `R[A]` and the receiver `R[B]` in `R[A+1]`, i.e.
     in front of the explicit arguments that follow from `R[A+2]`: `obj:m(args)` calls `m` with
@@ -256,24 +91,8 @@ theorem self_inserts_receiver (s : St) (cf : Frame) (rest : List Frame) (A B : N
       (∀ j, j ≠ cf.localBase + A → j ≠ cf.localBase + A + 1 → s'.reg.arr j = s.reg.arr j) ∧
       (∀ (args : List OVal) (recv : OVal), s.reg.arr (cf.localBase + B) = some recv →
         (∀ i, i < args.length → s.reg.arr (cf.localBase + A + 2 + i) = some ((args[i]?).getD none)) →
-        s'.reg.window (cf.localBase + A + 1) (args.length + 1) = (methodArgs recv args).map some) := by
-  refine ⟨_, by simp only [opSelf, hst]; rfl, by rw [hst], ?_, ?_, ?_, ?_⟩
-  · simp [Reg.set, Reg.get, upd]
-  · intro _; simp [Reg.set, Reg.get, upd]
-  · intro j h1 h2; simp [Reg.set, Reg.get, upd, h1, h2]
-  · intro args recv hr hargs
-    have := window_all (((s.reg.set (cf.localBase + A) method).set (cf.localBase + A + 1) (s.reg.get (cf.localBase + B))))
-      (cf.localBase + A + 1) (methodArgs recv args) (by
-        intro i hi
-        simp only [methodArgs, List.length_cons] at hi
-        cases i with
-        | zero => simp [Reg.set, Reg.get, upd, hr, methodArgs]
-        | succ i =>
-          have h3 : cf.localBase + A + 1 + (i + 1) = cf.localBase + A + 2 + i := by omega
-          simp only [Reg.set, Reg.get, upd, methodArgs, h3]
-          rw [if_neg (by omega), if_neg (by omega)]
-          simpa using hargs i (by omega))
-    simpa [methodArgs] using this
+        s'.reg.window (cf.localBase + A + 1) (args.length + 1) = (methodArgs recv args).map some) :=
+  Run.self_inserts_receiver s cf rest A B method hst
 
 /-- **setlist_fills** — `OP_SETLIST A B C` performs exactly the stores `t[(C'-1)·FieldsPerFlush + i] := R[A+i]` for
     `i = 1 … n`, in order, where `n = B`, or "up to top" for `B = 0`, and `C'` is `C`, or the following code word for
@@ -284,13 +103,11 @@ theorem setlist_fills (s : St) (cf : Frame) (rest : List Frame) (A B C extra tid
       stores.length = (if B = 0 then s.reg.top - (cf.localBase + A) - 1 else B) ∧
       ∀ i, i < stores.length →
         stores[i]? = some ((((if C = 0 then extra else C : Nat) : Int) - 1) * (Generated.FieldsPerFlush : Int) + ((i + 1 : Nat) : Int),
-                           s.reg.arr (cf.localBase + A + (i + 1))) := by
-  refine ⟨_, by simp only [opSetList, hst, Reg.get, ht]; rfl, by simp, ?_⟩
-  intro i hi
-  simp only [List.length_map, List.length_range] at hi
-  simp [Reg.get, hi]
+                           s.reg.arr (cf.localBase + A + (i + 1))) :=
+  Run.setlist_fills s cf rest A B C extra tid hst ht
 
 /-! ### frame set-up: initCallFrame -/
+
 
 /-- **initCallFrame_binds (fixed arity)** — for a Lua function without `...`: the parameter registers hold
     `bind np false args` = the arguments adjusted to `np` (missing ones nil, surplus dropped), every other
@@ -304,23 +121,8 @@ theorem initCallFrame_binds_fixed (r : Reg) (cf : Frame) (args : List OVal) (arg
     res.1.top = cf.localBase + cf.fn.nur ∧
     res.1.window cf.localBase cf.fn.np = (bind cf.fn.np false args).1.map some ∧
     (∀ i, cf.fn.np ≤ i → i < cf.fn.nur → res.1.arr (cf.localBase + i) = lnil) ∧
-    (∀ j, j < cf.localBase → res.1.arr j = r.arr j) := by
-  have hp := padMissing_spec r cf.localBase cf.fn.np args ha
-  simp only at hp
-  rw [← hn] at hp
-  obtain ⟨hp2, _, _, hparg, hpbelow⟩ := hp
-  have hf := initFixed_spec (padMissing r cf.localBase cf.nargs cf.fn.np).1 cf.localBase cf.fn.np
-    (padMissing r cf.localBase cf.nargs cf.fn.np).2 cf.fn.nur
-  obtain ⟨hf1, hf2, hf3, hf4⟩ := hf
-  simp only [initCallFrame, hG, hva, Bool.false_eq_true, if_false, Bool.not_false, if_true]
-  refine ⟨trivial, rfl, hf1, ?_, hf3, ?_⟩
-  · simp only [Adjust.bind]
-    apply window_eq_adjust
-    intro i hi
-    rw [hf2 i hi]
-    exact hparg i (by omega)
-  · intro j hj
-    rw [hf4 j hj, hpbelow j hj]
+    (∀ j, j < cf.localBase → res.1.arr j = r.arr j) :=
+  Run.initCallFrame_binds_fixed r cf args argId hG hva hn ha
 
 /-- **initCallFrame_binds (vararg)** — for a Lua function with `...` (`np < NumUsedRegisters`, which patchCode
     guarantees): `LocalBase` moves past the arguments; the parameter registers hold the arguments adjusted to
@@ -343,65 +145,8 @@ theorem initCallFrame_binds_vararg (r : Reg) (cf : Frame) (args : List OVal) (ar
              a.items = (bind cf.fn.np true args).2.map some
       else res.1.arr (lb' + cf.fn.np) = lnil ∧ res.2.2 = none) ∧
     (∀ i, cf.fn.np < i → i < cf.fn.nur → res.1.arr (lb' + i) = lnil) ∧
-    (∀ j, j < cf.localBase → res.1.arr j = r.arr j) := by
-  have hp := padMissing_spec r cf.localBase cf.fn.np args ha
-  simp only at hp
-  rw [← hn] at hp
-  obtain ⟨hp2, hptop, _, hparg, hpbelow⟩ := hp
-  have hv := initVararg_spec (padMissing r cf.localBase cf.nargs cf.fn.np).1 cf
-    (padMissing r cf.localBase cf.nargs cf.fn.np).2 argId (by omega) hptop hnur
-  simp only at hv
-  rw [hp2] at hv hparg
-  obtain ⟨hv1, hv2, hv3, hv4, hv5, hv6, hv7, hv8⟩ := hv
-  simp only [initCallFrame, hG, hva, Bool.false_eq_true, if_false, Bool.not_true]
-  rw [hp2]
-  have hextra : ∀ i, i < (args.drop cf.fn.np).length →
-      (initVararg (padMissing r cf.localBase cf.nargs cf.fn.np).1 cf (max cf.nargs cf.fn.np) argId).1.arr
-        (cf.localBase + cf.fn.np + i) = some (((args.drop cf.fn.np)[i]?).getD none) := by
-    intro i hi
-    simp only [List.length_drop] at hi
-    have h1 := hv4 (cf.fn.np + i) (by omega) (by omega)
-    have h2 := hparg (cf.fn.np + i) (by omega)
-    rw [show cf.localBase + (cf.fn.np + i) = cf.localBase + cf.fn.np + i by omega] at h1 h2
-    rw [h1, h2, List.getElem?_drop]
-  refine ⟨hv1, hv2, ?_, ?_, ?_, hv6, ?_⟩
-  · simp only [Adjust.bind]
-    apply window_eq_adjust
-    intro i hi
-    rw [hv3 i hi]
-    exact hparg i (by omega)
-  · simp only [Adjust.bind, hva, if_true, VarargFrame, hv1, hv2, List.length_drop]
-    refine ⟨by omega, by omega, by omega, ?_⟩
-    have := window_all _ (cf.base + cf.fn.np + 1) (args.drop cf.fn.np) (by
-      intro i hi
-      rw [show cf.base + cf.fn.np + 1 + i = cf.localBase + cf.fn.np + i by omega]
-      exact hextra i hi)
-    simpa [List.length_drop] using this
-  · by_cases hna : cf.fn.needsArg = true
-    · simp only [hna, if_true] at hv8 ⊢
-      obtain ⟨h81, a, ha1, _, ha3, ha4⟩ := hv8
-      refine ⟨h81, a, ha1, ?_, ?_⟩
-      · simp only [Adjust.bind, hva, if_true, List.length_drop, ha3]; omega
-      · simp only [Adjust.bind, hva, if_true, ha4]
-        apply List.ext_getElem?
-        intro i
-        by_cases hi : i < args.length - cf.fn.np
-        · have h2 := hparg (cf.fn.np + i) (by omega)
-          rw [show cf.localBase + (cf.fn.np + i) = cf.localBase + cf.fn.np + i by omega] at h2
-          have hi' : i < max cf.nargs cf.fn.np - cf.fn.np := by omega
-          simp only [List.getElem?_map, List.getElem?_range hi', Option.map_some, h2, List.getElem?_drop]
-          have : args[cf.fn.np + i]? = some args[cf.fn.np + i] := by simp
-          simp [this]
-        · have h1 : ((List.range (max cf.nargs cf.fn.np - cf.fn.np)).map
-              (fun i => (padMissing r cf.localBase cf.nargs cf.fn.np).1.arr (cf.localBase + cf.fn.np + i)))[i]? = none := by
-            simp; omega
-          have h2 : ((args.drop cf.fn.np).map some)[i]? = none := by simp; omega
-          rw [h1, h2]
-    · have hna' : cf.fn.needsArg = false := by simpa using hna
-      simp only [hna', Bool.false_eq_true, if_false] at hv8 ⊢
-      exact hv8
-  · intro j hj
-    rw [hv7 j hj, hpbelow j hj]
+    (∀ j, j < cf.localBase → res.1.arr j = r.arr j) :=
+  Run.initCallFrame_binds_vararg r cf args argId hG hva hb hn ha hnur
 
 /-- **initCallFrame_binds (host function)** — a Go callee sees exactly the supplied arguments as its stack
     `1..nargs` (`top = LocalBase + nargs`), nothing else changes below them. -/
@@ -410,34 +155,18 @@ theorem initCallFrame_binds_G (r : Reg) (cf : Frame) (args : List OVal) (argId :
     let res := initCallFrame r cf argId
     res.2.1 = cf ∧ res.1.top = cf.localBase + args.length ∧
     res.1.window cf.localBase args.length = args.map some ∧
-    (∀ j, j < cf.localBase → res.1.arr j = r.arr j) := by
-  obtain ⟨htop, harg⟩ := ha
-  simp only [initCallFrame, hG, if_true]
-  refine ⟨trivial, by simp only [Reg.setTop, hn], ?_, ?_⟩
-  · apply window_all
-    intro i hi
-    simp only [Reg.setTop]
-    rw [if_neg (by omega), if_neg (by omega)]
-    exact harg i hi
-  · intro j hj
-    simp only [Reg.setTop]
-    rw [if_neg (by omega), if_neg (by omega)]
+    (∀ j, j < cf.localBase → res.1.arr j = r.arr j) :=
+  Run.initCallFrame_binds_G r cf args argId hG hn ha
 
 /-! ### proper tail calls -/
+
 
 /-- shape of the frame and `top` after `initCallFrame` for a Lua callee, for *any* registry contents. -/
 theorem initCallFrame_shape (r : Reg) (cf : Frame) (argId : Nat) (hG : cf.fn.isG = false) :
     (initCallFrame r cf argId).2.1 =
       { cf with localBase := cf.localBase + (if cf.fn.varArg then max cf.nargs cf.fn.np else 0) } ∧
-    (initCallFrame r cf argId).1.top = (initCallFrame r cf argId).2.1.localBase + cf.fn.nur := by
-  by_cases hva : cf.fn.varArg = true
-  · by_cases hc : cf.nargs < cf.fn.np
-    · have hm : max cf.nargs cf.fn.np = cf.fn.np := by omega
-      simp [initCallFrame, hG, hva, padMissing, hc, initVararg, compatVarArg, Reg.setTop, hm]
-    · have hm : max cf.nargs cf.fn.np = cf.nargs := by omega
-      simp [initCallFrame, hG, hva, padMissing, hc, initVararg, compatVarArg, Reg.setTop, hm]
-  · have hva' : cf.fn.varArg = false := by simpa using hva
-    simp [initCallFrame, hG, hva', initFixed]
+    (initCallFrame r cf argId).1.top = (initCallFrame r cf argId).2.1.localBase + cf.fn.nur :=
+  Run.initCallFrame_shape r cf argId hG
 
 /-- **tailcall_reuses_frame** — `OP_TAILCALL` to a Lua function (any register contents, any operands, also through
     `__call`): the call stack keeps its depth — the caller's frame record is overwritten in place —, `Base`,
@@ -452,36 +181,12 @@ theorem tailcall_reuses_frame (s : St) (cf : Frame) (rest : List Frame) (A B : N
       cf'.tailCall = cf.tailCall + 1 ∧
       cf'.nargs = decodeNArgs s.reg.top (cf.localBase + A) B + (if isMeta then 1 else 0) ∧
       cf'.localBase = cf.base + 1 + (if callee.varArg then max cf'.nargs callee.np else 0) ∧
-      s'.reg.top = cf'.localBase + callee.nur := by
-  cases isMeta with
-  | false =>
-    have hsh := initCallFrame_shape s.reg
-      { cf with fn := callee, base := cf.localBase + A, localBase := cf.localBase + A + 1,
-                nargs := decodeNArgs s.reg.top (cf.localBase + A) B, tailCall := cf.tailCall + 1 } argId hG
-    obtain ⟨h1, h2⟩ := hsh
-    dsimp only at h1 h2
-    refine ⟨_, _, _, by simp only [opTailCallLua, opTailCallLuaGen, hst]; rfl, by rfl, by simp [St.sp, hst], by rfl,
-      ?_, ?_, ?_, ?_, ?_, ?_, ?_, ?_⟩
-    all_goals simp only [Bool.false_eq_true, if_false, h1, h2, copyRange_top, Nat.add_zero]
-    all_goals (try (split <;> omega))
-  | true =>
-    have hsh := initCallFrame_shape (s.reg.insert (s.reg.get (cf.localBase + A)) (cf.localBase + A + 1))
-      { cf with fn := callee, base := cf.localBase + A, localBase := cf.localBase + A + 1,
-                nargs := decodeNArgs s.reg.top (cf.localBase + A) B + 1, tailCall := cf.tailCall + 1 } argId hG
-    obtain ⟨h1, h2⟩ := hsh
-    dsimp only at h1 h2
-    refine ⟨_, _, _, by simp only [opTailCallLua, opTailCallLuaGen, hst]; rfl, by rfl, by simp [St.sp, hst], by rfl,
-      ?_, ?_, ?_, ?_, ?_, ?_, ?_, ?_⟩
-    all_goals simp only [if_true, Bool.false_eq_true, if_false, h1, h2, copyRange_top]
-    all_goals (try (split <;> omega))
+      s'.reg.top = cf'.localBase + callee.nur :=
+  Run.tailcall_reuses_frame s cf rest A B callee isMeta argId hst hG
 
-/-- a run of a function that keeps tail-calling Lua functions: between two tail calls the body may change the
+/- a run of a function that keeps tail-calling Lua functions: between two tail calls the body may change the
     registers arbitrarily (`reg'`) but not the call stack. -/
-inductive TailChain : St → St → Prop where
-  | refl (s : St) : TailChain s s
-  | step {s s1 s2 : St} (reg' : Reg) (A B : Nat) (callee : FnInfo) (isMeta : Bool) (argId : Nat) (atb : Option ArgTbl) :
-      TailChain s s1 → callee.isG = false →
-      opTailCallLua { s1 with reg := reg' } A B callee isMeta argId = .ok (s2, atb) → TailChain s s2
+export GLua.CallFrame.Run (TailChain)
 
 /-- **tailcall_constant_space** — by induction on the number of successive tail calls: the call-stack depth `Sp`,
     the frames below, and the running frame's `Base`/`ReturnBase`/`NRet` never change, and after every tail call
@@ -491,20 +196,8 @@ theorem tailcall_constant_space {s s' : St} (h : TailChain s s') (cf : Frame) (r
     (hst : s.stack = cf :: rest) :
     s'.sp = s.sp ∧ ∃ cf', s'.stack = cf' :: rest ∧ cf'.base = cf.base ∧ cf'.returnBase = cf.returnBase ∧
       cf'.nret = cf.nret ∧
-      (s' = s ∨ (cf'.localBase ≤ cf.base + 1 + max cf'.nargs cf'.fn.np ∧ s'.reg.top = cf'.localBase + cf'.fn.nur)) := by
-  induction h with
-  | refl => exact ⟨rfl, cf, hst, rfl, rfl, rfl, Or.inl rfl⟩
-  | @step s1 s2 reg' A B callee isMeta argId atb _ hG hop ih =>
-    obtain ⟨hsp1, cf1, hst1, hb1, hr1, hn1, _⟩ := ih
-    obtain ⟨s3, atb3, cf3, hop3, hst3, hsp3, _, hfn, hb3, hr3, hn3, _, _, hlb3, htop3⟩ :=
-      tailcall_reuses_frame { s1 with reg := reg' } cf1 rest A B callee isMeta argId hst1 hG
-    rw [hop] at hop3
-    simp only [Except.ok.injEq, Prod.mk.injEq] at hop3
-    obtain ⟨rfl, _⟩ := hop3
-    refine ⟨by rw [hsp3]; simpa [St.sp] using hsp1, cf3, hst3, by omega, by rw [hr3, hr1], by rw [hn3, hn1],
-      Or.inr ⟨?_, by rw [htop3, hfn]⟩⟩
-    rw [hlb3, hb1, hfn]
-    split <;> omega
+      (s' = s ∨ (cf'.localBase ≤ cf.base + 1 + max cf'.nargs cf'.fn.np ∧ s'.reg.top = cf'.localBase + cf'.fn.nur)) :=
+  Run.tailcall_constant_space h cf rest hst
 
 /-- **tailcall_host_pops_both** — `OP_TAILCALL` to a host function: while the Go function runs its frame sits on top
     of the caller's (`Sp + 1`, carrying the caller's `ReturnBase` and `NRet`); when it returns, the caller's frame
@@ -512,22 +205,10 @@ theorem tailcall_constant_space {s s' : St} (h : TailChain s s') (cf : Frame) (r
 theorem tailcall_host_pops_both (s : St) (cf : Frame) (rest : List Frame) (A B : Nat) (callee : FnInfo) (isMeta : Bool)
     (s1 : St) (hst : s.stack = cf :: rest) (h1 : opTailCallG s A B callee isMeta = .ok s1) :
     ∃ g, s1.stack = g :: cf :: rest ∧ g.returnBase = cf.returnBase ∧ g.nret = cf.nret ∧
-      ∀ (reg' : Reg) (k : Nat), ∃ s2, gReturn { s1 with reg := reg' } k true = .ok s2 ∧ s2.stack = rest ∧ s2.sp + 1 = s.sp := by
-  simp only [opTailCallG, hst, pushCallFrame] at h1
-  cases isMeta <;> simp only [Bool.false_eq_true, if_false, if_true] at h1 <;>
-    (split at h1
-     · simp [Except.map] at h1
-     · simp only [Except.map] at h1
-       injection h1 with h1
-       subst h1
-       refine ⟨_, rfl, ?_, ?_, ?_⟩
-       · simp only [initCallFrame]; split <;> simp [initVararg, initFixed] <;> (try split) <;> rfl
-       · simp only [initCallFrame]; split <;> simp [initVararg, initFixed] <;> (try split) <;> rfl
-       · intro reg' k
-         exact ⟨_, by simp only [gReturn, removeCallerFrame]; rfl, rfl, by simp [St.sp, hst]⟩)
+      ∀ (reg' : Reg) (k : Nat), ∃ s2, gReturn { s1 with reg := reg' } k true = .ok s2 ∧ s2.stack = rest ∧ s2.sp + 1 = s.sp :=
+  Run.tailcall_host_pops_both s cf rest A B callee isMeta s1 hst h1
 
 /-! ### `select` and `unpack` -/
-
 theorem drop_cons_pos {α} (a : α) (l : List α) (n : Nat) (h : 0 < n) : (a :: l).drop n = l.drop (n - 1) := by
   cases n with
   | zero => omega
@@ -633,6 +314,285 @@ theorem unpack_spec (t : Int → OVal) (i j : Int) (below : List OVal) :
   · simp only [h, if_false, List.length_append, List.length_map, List.length_range]
     rw [Nat.add_sub_cancel, List.drop_left]
 
+/-! ## The COMPILE-TIME half: the compiler encodes every call shape so that the run-time theorems above apply
+
+  Model = `Model/CallCompile.lean` (a transcription of `compileExpr` / `compileFuncCallExpr` / `compileTableExpr` /
+  `compileReturnStmt` / `compileRegAssignment` … for the producer language of `Spec/CallShapes.lean`, tied word for
+  word to the real compiler by the `cc` requests of the C02M run) + a machine that executes the emitted
+  instructions with the run-time Model above (`opCall`, `initCallFrame`, `opReturn`, `gReturn`, `opVararg`,
+  `opSetList`, `opSelf`) and ABSTRACT callees (`MEnv.sem`: any function from (parameters, extra arguments, world)
+  to (results, world); `luaBody`/`goBody`: any body that leaves its results where its OP_RETURN / return count says:
+  `BodiesOK`).  Spec = `CallShapes.evalMulti / evalList / evalFields / execStmt` (the manual's evaluation).
+
+  All statements are for EVERY producer (any nesting depth), every list length, every number of wanted values,
+  every callee kind (host, fixed-arity Lua, vararg Lua with or without `arg`), every register file and frame that
+  satisfy the activation invariant `Inv`, every constant pool `K` extending the one the compiler built.
+  They speak about the ENCODED code (`Instr.mask` = the operand truncation of `AddABC`) under the decidable guard
+  `Fits` (no operand was truncated; `patchCode` rejects functions that need 200 registers or more). -/
+
+section CompileTime
+open GLua.CallCompile GLua.CallShapes
+
+variable {W : Type}
+
+/-- **results_adjusted** — every producer `e`, compiled for any context (`varargopt`: `-2` open, `-1` no value,
+    `k ≥ 0` exactly `k+1` values), leaves in the registers from `R[reg]` exactly what the manual prescribes: ALL its
+    values with `top` just above them (open), resp. `adjust values (k+1)` (truncated / nil-padded); it has the
+    Spec's effect on the world and on the table heap, and changes nothing below `R[reg]` nor the call stack. -/
+theorem results_adjusted (env : MEnv W) (hB : BodiesOK env) (hI : InfoWF env) (K : List Konst) (e : Ex)
+    (rt reg : Nat) (ec : ExpCtx) (cs : CState) (cf : Frame) (rest : List Frame) (loc : Nat → OVal)
+    (extra : List OVal) (s : MS W)
+    (hp : Plain ec reg) (hctx : CtxOK e ec.varargopt) (hsc : e.scoped rt = true) (hreg : rt ≤ reg)
+    (hK : (compExpr rt e reg ec cs).cs.consts <+: K) (hfits : Fits (compExpr rt e reg ec cs).code)
+    (hinv : Inv cf rest rt loc extra s) (htop : cf.localBase + reg ≤ s.st.reg.top) :
+    ∃ s', exec env K ((compExpr rt e reg ec cs).code.map Instr.mask) s = .ok s' ∧
+      s'.st.stack = s.st.stack ∧ (∀ j, j < cf.localBase + reg → s'.st.reg.arr j = s.st.reg.arr j) ∧
+      s'.σ = (evalMulti (env.toSEnv extra) loc e s.σ).2 ∧
+      (ec.varargopt = -2 →
+        s'.st.reg.top = cf.localBase + reg + (evalMulti (env.toSEnv extra) loc e s.σ).1.length ∧
+        s'.st.reg.window (cf.localBase + reg) (evalMulti (env.toSEnv extra) loc e s.σ).1.length =
+          (evalMulti (env.toSEnv extra) loc e s.σ).1.map some) ∧
+      (∀ k : Nat, ec.varargopt = (k : Int) →
+        cf.localBase + reg + (k + 1) ≤ s'.st.reg.top ∧
+        s'.st.reg.window (cf.localBase + reg) (k + 1) =
+          (adjust (evalMulti (env.toSEnv extra) loc e s.σ).1 (some (k + 1))).map some) := by
+  obtain ⟨s', hrun, hstep, hσ, hres⟩ := exprSound env hB hI K e rt reg ec cs cf rest loc extra s hp hctx hsc hreg hK hfits
+    hinv htop
+  obtain ⟨ht, h2, h0, _⟩ := hres
+  refine ⟨s', hrun.masked hfits, hstep.stack, hstep.below, hσ, fun hv => ?_, fun k hk => ?_⟩
+  · obtain ⟨ha, hb, _⟩ := h2 hv
+    exact ⟨ha, valsAt_window hb⟩
+  · obtain ⟨ha, hb⟩ := h0 (by omega)
+    have hk1 : (ec.varargopt + 1).toNat = k + 1 := by omega
+    rw [hk1] at ha hb
+    exact ⟨by rw [hb] at ht; exact ht, ha.window⟩
+
+/-- **call_site_delivers** — for `f(args)` in any context: the callee is the first value of `f`; it runs in the
+    world left by evaluating `f` and then the argument list, with its parameters and `...` bound (`Adjust.bind`, by
+    its own parameter count and vararg-ness) to EXACTLY the manual's argument list — every producer but the last
+    adjusted to one value, the last one expanded (`evalList`); the world afterwards is the one it returns. -/
+theorem call_site_delivers (env : MEnv W) (hB : BodiesOK env) (hI : InfoWF env) (K : List Konst) (p : Bool) (f : Ex)
+    (args : List Ex) (rt reg : Nat) (ec : ExpCtx) (cs : CState) (cf : Frame) (rest : List Frame) (loc : Nat → OVal)
+    (extra : List OVal) (s : MS W)
+    (hp : Plain ec reg) (hctx : CtxOK (.call p f args) ec.varargopt) (hsc : (Ex.call p f args).scoped rt = true)
+    (hreg : rt ≤ reg) (hK : (compExpr rt (.call p f args) reg ec cs).cs.consts <+: K)
+    (hfits : Fits (compExpr rt (.call p f args) reg ec cs).code)
+    (hinv : Inv cf rest rt loc extra s) (htop : cf.localBase + reg ≤ s.st.reg.top) :
+    ∃ s', exec env K ((compExpr rt (.call p f args) reg ec cs).code.map Instr.mask) s = .ok s' ∧
+      let senv := env.toSEnv extra
+      let r1 := evalMulti senv loc f s.σ            -- the function expression
+      let r2 := evalList senv loc args r1.2         -- the argument list, as §2.5 evaluates it
+      let fv := first r1.1
+      s'.w = (env.sem fv (bind (senv.np fv) (senv.va fv) r2.1).1 (bind (senv.np fv) (senv.va fv) r2.1).2 r2.2.w).2 ∧
+      s'.heap = r2.2.heap := by
+  obtain ⟨s', hrun, _, hσ, _⟩ := exprSound env hB hI K _ rt reg ec cs cf rest loc extra s hp hctx hsc hreg hK hfits
+    hinv htop
+  refine ⟨s', hrun.masked hfits, ?_⟩
+  have hw : s'.w = (evalMulti (env.toSEnv extra) loc (.call p f args) s.σ).2.w := by rw [← hσ]; rfl
+  have hh : s'.heap = (evalMulti (env.toSEnv extra) loc (.call p f args) s.σ).2.heap := by rw [← hσ]; rfl
+  simp only [evalMulti, callSem] at hw hh
+  exact ⟨hw, hh⟩
+
+/-- **method_call_self** — `recv:name(args)`: the receiver is evaluated once, the method is `index recv name` looked
+    up BEFORE the arguments are evaluated, and the callee's argument list is `methodArgs recv args` = the receiver
+    followed by the explicit arguments (last one expanded). -/
+theorem method_call_self (env : MEnv W) (hB : BodiesOK env) (hI : InfoWF env) (K : List Konst) (p : Bool) (recv : Ex)
+    (m : String) (args : List Ex) (rt reg : Nat) (ec : ExpCtx) (cs : CState) (cf : Frame) (rest : List Frame)
+    (loc : Nat → OVal) (extra : List OVal) (s : MS W)
+    (hp : Plain ec reg) (hctx : CtxOK (.mcall p recv m args) ec.varargopt)
+    (hsc : (Ex.mcall p recv m args).scoped rt = true) (hreg : rt ≤ reg)
+    (hK : (compExpr rt (.mcall p recv m args) reg ec cs).cs.consts <+: K)
+    (hfits : Fits (compExpr rt (.mcall p recv m args) reg ec cs).code)
+    (hinv : Inv cf rest rt loc extra s) (htop : cf.localBase + reg ≤ s.st.reg.top) :
+    ∃ s', exec env K ((compExpr rt (.mcall p recv m args) reg ec cs).code.map Instr.mask) s = .ok s' ∧
+      let senv := env.toSEnv extra
+      let r1 := evalMulti senv loc recv s.σ
+      let rv := first r1.1
+      let fv := env.index rv m r1.2.w
+      let r2 := evalList senv loc args r1.2
+      let all := methodArgs rv r2.1
+      s'.w = (env.sem fv (bind (senv.np fv) (senv.va fv) all).1 (bind (senv.np fv) (senv.va fv) all).2 r2.2.w).2 := by
+  obtain ⟨s', hrun, _, hσ, _⟩ := exprSound env hB hI K _ rt reg ec cs cf rest loc extra s hp hctx hsc hreg hK hfits
+    hinv htop
+  refine ⟨s', hrun.masked hfits, ?_⟩
+  have hw : s'.w = (evalMulti (env.toSEnv extra) loc (.mcall p recv m args) s.σ).2.w := by rw [← hσ]; rfl
+  simp only [evalMulti, callSem] at hw
+  exact hw
+
+/-- **explist_delivers** — an expression list (the arguments of a call, the values of a `return`) of ANY length:
+    its values (`evalList`: one per producer, the last one expanded) sit in consecutive registers from `R[reg]`;
+    after an open-ended last producer `top` is exactly above the last value (what `B = 0` of the following
+    OP_CALL / OP_RETURN reads), otherwise there is exactly one register per expression. -/
+theorem explist_delivers (env : MEnv W) (hB : BodiesOK env) (hI : InfoWF env) (K : List Konst) (es : List Ex)
+    (rt reg : Nat) (cs : CState) (cf : Frame) (rest : List Frame) (loc : Nat → OVal) (extra : List OVal) (s : MS W)
+    (hsc : scopedL rt es = true) (hreg : rt ≤ reg)
+    (hK : (compList rt es reg cs).cs.consts <+: K) (hfits : Fits (compList rt es reg cs).code)
+    (hinv : Inv cf rest rt loc extra s) (htop : cf.localBase + reg ≤ s.st.reg.top) :
+    ∃ s', exec env K ((compList rt es reg cs).code.map Instr.mask) s = .ok s' ∧
+      s'.st.stack = s.st.stack ∧ (∀ j, j < cf.localBase + reg → s'.st.reg.arr j = s.st.reg.arr j) ∧
+      s'.σ = (evalList (env.toSEnv extra) loc es s.σ).2 ∧
+      s'.st.reg.window (cf.localBase + reg) (evalList (env.toSEnv extra) loc es s.σ).1.length =
+        (evalList (env.toSEnv extra) loc es s.σ).1.map some ∧
+      (if (compList rt es reg cs).lastMulti then
+         s'.st.reg.top = cf.localBase + reg + (evalList (env.toSEnv extra) loc es s.σ).1.length
+       else (evalList (env.toSEnv extra) loc es s.σ).1.length = es.length ∧
+            cf.localBase + reg + es.length ≤ s'.st.reg.top) := by
+  obtain ⟨s', hrun, hstep, hσ, hv, hlast⟩ := listSound env hB hI K es rt reg cs cf rest loc extra s hsc hreg hK hfits
+    hinv htop
+  refine ⟨s', hrun.masked hfits, hstep.stack, hstep.below, hσ, valsAt_window hv, ?_⟩
+  split
+  · rename_i h; simp only [h, if_true] at hlast; exact hlast
+  · rename_i h; simp only [h, Bool.false_eq_true, if_false] at hlast; exact ⟨hlast.1, hlast.2.2⟩
+
+/-- **constructor_fields_stored** — a table constructor with ANY field list (positional, keyed, an open-ended last
+    field; any length: every SETLIST batch boundary, batch numbers beyond 511 in the extra code word): the machine's
+    table heap afterwards is exactly the Spec's — the new table's positional store log and keyed store log are the
+    ones `evalFields` prescribes (see `constructor_positional_fields` for what that log is). -/
+theorem constructor_fields_stored (env : MEnv W) (hB : BodiesOK env) (hI : InfoWF env) (K : List Konst)
+    (keys : List (Option Key)) (vals : List Ex) (rt reg : Nat) (cs : CState) (cf : Frame) (rest : List Frame)
+    (loc : Nat → OVal) (extra : List OVal) (s : MS W)
+    (hsc : (Ex.tbl keys vals).scoped rt = true) (hreg : rt ≤ reg)
+    (hK : (compExpr rt (.tbl keys vals) reg (ecnone 0) cs).cs.consts <+: K)
+    (hfits : Fits (compExpr rt (.tbl keys vals) reg (ecnone 0) cs).code)
+    (hinv : Inv cf rest rt loc extra s) (htop : cf.localBase + reg ≤ s.st.reg.top) :
+    ∃ s', exec env K ((compExpr rt (.tbl keys vals) reg (ecnone 0) cs).code.map Instr.mask) s = .ok s' ∧
+      s'.st.reg.arr (cf.localBase + reg) = some (some (.ref s.heap.length)) ∧
+      s'.heap = (evalFields (env.toSEnv extra) loc s.heap.length keys vals 0
+                  { w := s.w, heap := s.heap ++ [{}] }).heap ∧
+      s'.w = (evalFields (env.toSEnv extra) loc s.heap.length keys vals 0 { w := s.w, heap := s.heap ++ [{}] }).w := by
+  obtain ⟨s', hrun, _, hσ, hres⟩ := exprSound env hB hI K _ rt reg (ecnone 0) cs cf rest loc extra s (plain_ecnone _ _)
+    (ctxOK_0 _) hsc hreg hK hfits hinv htop
+  obtain ⟨_, _, h0, _⟩ := hres
+  obtain ⟨hv, _⟩ := h0 (Int.le_refl _)
+  refine ⟨s', hrun.masked hfits, ?_, ?_, ?_⟩
+  · have := hv 0 (by show 0 < ((0 : Int) + 1).toNat; decide)
+    rw [Nat.add_zero] at this
+    rw [this]; simp [evalMulti]; rfl
+  · have : s'.heap = (evalMulti (env.toSEnv extra) loc (.tbl keys vals) s.σ).2.heap := by rw [← hσ]; rfl
+    rw [this]; simp only [evalMulti]; rfl
+  · have : s'.w = (evalMulti (env.toSEnv extra) loc (.tbl keys vals) s.σ).2.w := by rw [← hσ]; rfl
+    rw [this]; simp only [evalMulti]; rfl
+
+/-- **return_list_delivers** — EVERY return statement (`compileReturnStmt`: `return x` for a local, the general list
+    `return e1, …, en` with `B = n+1` or `B = 0` behind an open-ended last producer, `return (f(args))`, and the tail
+    call `return f(args)`): the function's frame is popped and its caller finds at `ReturnBase` exactly
+    `adjust (evalList es) NRet` — the list as the manual evaluates it (last producer expanded), adjusted to what
+    the caller asked for; for the tail call the callee received the same arguments an ordinary call gives it. -/
+theorem return_list_delivers (env : MEnv W) (hB : BodiesOK env) (hI : InfoWF env) (K : List Konst) (es : List Ex)
+    (cf : Frame) (rest : List Frame) (rt : Nat) (loc : Nat → OVal) (extra : List OVal) (s : MS W) (cs : CState)
+    (hsc : scopedL rt es = true) (hK : (compReturn rt es cs).2.consts <+: K) (hfits : Fits (compReturn rt es cs).1)
+    (hinv : Inv cf rest rt loc extra s) (htop : cf.localBase + rt ≤ s.st.reg.top) :
+    ∃ s', exec env K ((compReturn rt es cs).1.map Instr.mask) s = .ok s' ∧
+      s'.done = true ∧ s'.st.stack = rest ∧
+      s'.st.reg.top = cf.returnBase + (adjust (evalList (env.toSEnv extra) loc es s.σ).1 cf.nret).length ∧
+      s'.st.reg.window cf.returnBase (adjust (evalList (env.toSEnv extra) loc es s.σ).1 cf.nret).length =
+        (adjust (evalList (env.toSEnv extra) loc es s.σ).1 cf.nret).map some ∧
+      (∀ j, j < cf.returnBase → s'.st.reg.arr j = s.st.reg.arr j) ∧
+      s'.σ = (evalList (env.toSEnv extra) loc es s.σ).2 := by
+  obtain ⟨s', hrun, hret, hσ⟩ := compReturn_sound env hB hI K es cf rest rt loc extra s cs hsc hK hfits hinv htop
+  exact ⟨s', hrun.masked hfits, hret.done, hret.stack, hret.top, hret.window, hret.below, hσ⟩
+
+/-- **tailcall_passes_values** (run-time, value level; complements `tailcall_reuses_frame`) — OP_TAILCALL with the
+    function value in `R[A]` and the argument values behind it, for a host callee and for a Lua callee (fixed or
+    vararg: `initCallFrame` above the arguments, then the block move down onto the caller's base): the callee runs
+    on `bind` of exactly these arguments, the running function's frame is gone, and ITS caller finds
+    `adjust results cf.NRet` at `cf.ReturnBase`. -/
+theorem tailcall_passes_values (env : MEnv W) (hB : BodiesOK env) (hI : InfoWF env) (extra : List OVal) (s : MS W)
+    (cf : Frame) (rest : List Frame) (A B : Nat) (fv : OVal) (args : List OVal)
+    (hst : s.st.stack = cf :: rest) (hroom : s.st.stack.length < s.st.maxSp)
+    (hrbb : cf.returnBase ≤ cf.base) (hbl : cf.base < cf.localBase)
+    (hf : s.st.reg.arr (cf.localBase + A) = some fv)
+    (ha : ArgsAt s.st.reg (cf.localBase + A + 1) args)
+    (hb : if B = 0 then s.st.reg.top = cf.localBase + A + 1 + args.length else args.length = B - 1) :
+    ∃ s', execTailCall env s A B = .ok s' ∧ s'.done = true ∧ s'.st.stack = rest ∧ s'.heap = s.heap ∧
+      s'.w = (callSem (env.toSEnv extra) fv args s.w).2 ∧
+      s'.st.reg.top = cf.returnBase + (adjust (callSem (env.toSEnv extra) fv args s.w).1 cf.nret).length ∧
+      s'.st.reg.window cf.returnBase (adjust (callSem (env.toSEnv extra) fv args s.w).1 cf.nret).length =
+        (adjust (callSem (env.toSEnv extra) fv args s.w).1 cf.nret).map some ∧
+      (∀ j, j < cf.returnBase → s'.st.reg.arr j = s.st.reg.arr j) :=
+  execTailCall_spec env hB hI extra s cf rest A B fv args hst hroom hrbb hbl hf ha hb
+
+/-- **paren_call_single** — `return (f(args))`: the call is compiled for exactly one result, the open `RETURN a 0`
+    behind it returns exactly that ONE value (nil if `f` returns nothing), adjusted to the caller's `NRet`. -/
+theorem paren_call_single (env : MEnv W) (hB : BodiesOK env) (hI : InfoWF env) (K : List Konst) (e : Ex)
+    (hcall : e.isCall = true)
+    (cf : Frame) (rest : List Frame) (rt : Nat) (loc : Nat → OVal) (extra : List OVal) (s : MS W) (cs : CState)
+    (hsc : e.scoped rt = true) (hK : (compExpr rt e rt (ecnone 0) cs).cs.consts <+: K)
+    (hfits : Fits ((compExpr rt e rt (ecnone 0) cs).code ++ [Instr.ret rt 0]))
+    (hinv : Inv cf rest rt loc extra s) (htop : cf.localBase + rt ≤ s.st.reg.top) :
+    ∃ s', exec env K (((compExpr rt e rt (ecnone 0) cs).code ++ [Instr.ret rt 0]).map Instr.mask) s = .ok s' ∧
+      s'.done = true ∧ s'.st.stack = rest ∧
+      s'.st.reg.window cf.returnBase (adjust [first (evalMulti (env.toSEnv extra) loc e s.σ).1] cf.nret).length =
+        (adjust [first (evalMulti (env.toSEnv extra) loc e s.σ).1] cf.nret).map some ∧
+      s'.st.reg.top = cf.returnBase + (adjust [first (evalMulti (env.toSEnv extra) loc e s.σ).1] cf.nret).length := by
+  obtain ⟨s', hrun, hret, _⟩ := ret_paren_sound env hB hI K e hcall cf rest rt loc extra s cs hsc hK
+    ((fits_append.mp hfits).1) hinv htop
+  exact ⟨s', hrun.masked hfits, hret.done, hret.stack, hret.window, hret.top⟩
+
+/-- **assignment_rhs_adjusted (local declarations)** — `local x1, …, xn = e1, …, em` for any `n`, `m`
+    (`compileRegAssignment`): the `n` new locals' registers hold `adjust (evalList es) n` — one value per producer,
+    the last producer expanded if it is a call or `...`, missing values nil (LOADNIL), surplus values dropped —, and
+    ALL the expressions have been evaluated (also the surplus ones). -/
+theorem assignment_rhs_adjusted (env : MEnv W) (hB : BodiesOK env) (hI : InfoWF env) (K : List Konst) (n : Nat)
+    (es : List Ex) (rt : Nat) (cs : CState) (cf : Frame) (rest : List Frame) (loc : Nat → OVal) (extra : List OVal)
+    (s : MS W)
+    (hsc : scopedL rt es = true) (hK : (compRegAssignment rt n es rt n cs).2.consts <+: K)
+    (hfits : Fits (compRegAssignment rt n es rt n cs).1)
+    (hinv : Inv cf rest rt loc extra s) (htop : cf.localBase + rt ≤ s.st.reg.top) :
+    ∃ s', exec env K ((compRegAssignment rt n es rt n cs).1.map Instr.mask) s = .ok s' ∧
+      s'.st.stack = s.st.stack ∧ (∀ j, j < cf.localBase + rt → s'.st.reg.arr j = s.st.reg.arr j) ∧
+      s'.σ = (evalList (env.toSEnv extra) loc es s.σ).2 ∧
+      s'.st.reg.window (cf.localBase + rt) n = (adjust (evalList (env.toSEnv extra) loc es s.σ).1 (some n)).map some ∧
+      cf.localBase + rt + n ≤ s'.st.reg.top := by
+  rw [compRegAssignment_eq] at hK hfits ⊢
+  obtain ⟨s', hrun, hstep, hσ, hv, ht⟩ := regAssign_sound env hB hI K n es rt 0 rt cs cf rest loc extra s hsc
+    (Nat.le_refl _) (Nat.zero_le _) hK hfits hinv htop
+  exact ⟨s', hrun.masked hfits, hstep.stack, hstep.below, hσ, (by simpa using hv.window), by simpa using ht⟩
+
+/-- **constructor_positional_fields** (the theorem that was missing for `flushPlan`) — for EVERY field list (positional,
+    keyed and an open-ended last field in any order and number; every SETLIST batch boundary; batch numbers beyond
+    511 through the extra code word): the new table's positional store log is `posStores 0 vs` =
+    `[(1, v₁), (2, v₂), …, (n, vₙ)]` — positional value number k is stored under index k, each index exactly once,
+    in order — where `vs` are the positional values as the manual evaluates them (`evalFields`). -/
+theorem constructor_positional_fields (env : MEnv W) (hB : BodiesOK env) (hI : InfoWF env) (K : List Konst)
+    (keys : List (Option Key)) (vals : List Ex) (rt reg : Nat) (cs : CState) (cf : Frame) (rest : List Frame)
+    (loc : Nat → OVal) (extra : List OVal) (s : MS W)
+    (hsc : (Ex.tbl keys vals).scoped rt = true) (hreg : rt ≤ reg)
+    (hK : (compExpr rt (.tbl keys vals) reg (ecnone 0) cs).cs.consts <+: K)
+    (hfits : Fits (compExpr rt (.tbl keys vals) reg (ecnone 0) cs).code)
+    (hinv : Inv cf rest rt loc extra s) (htop : cf.localBase + reg ≤ s.st.reg.top) :
+    ∃ (s' : MS W) (vs : List OVal) (ks : List (OVal × OVal)),
+      exec env K ((compExpr rt (.tbl keys vals) reg (ecnone 0) cs).code.map Instr.mask) s = .ok s' ∧
+      s'.st.reg.arr (cf.localBase + reg) = some (some (.ref s.heap.length)) ∧
+      s'.heap[s.heap.length]? = some { arr := posStores 0 vs, keyed := ks } ∧
+      (∀ k, k < vs.length → (posStores 0 vs)[k]? = some (((k + 1 : Nat) : Int), (vs[k]?).getD none)) := by
+  obtain ⟨s', hex, hreg', hheap, _⟩ := constructor_fields_stored env hB hI K keys vals rt reg cs cf rest loc extra s hsc
+    hreg hK hfits hinv htop
+  obtain ⟨vs, ks, hlog⟩ := tbl_log (env.toSEnv extra) loc keys vals s.σ
+  refine ⟨s', vs, ks, hex, hreg', ?_, ?_⟩
+  · rw [hheap]
+    simp only [evalMulti] at hlog
+    exact hlog
+  · intro k hk
+    simp [posStores, hk]
+
+/-- **tailcall_emitted_iff** — a statement's code contains an OP_TAILCALL exactly when the statement is
+    `return f(args)` / `return o:m(args)`: ONE producer, a call, not in parentheses; no other return list
+    (`return (f())`, `return f(), g()`, `return x, f()`, `return ...`), no call statement, local declaration or
+    assignment is compiled to a tail call.  (What the OP_TAILCALL then does — frame reuse, constant stack depth —
+    is `tailcall_reuses_frame` / `tailcall_constant_space` above.) -/
+theorem tailcall_emitted_iff (rt : Nat) (st : Stmt) (cs : CState) :
+    (∃ i ∈ (compStmt rt st cs).1, i.isTail = true) ↔
+    ∃ e, st = .ret [e] ∧ e.isCall = true ∧ e.paren = false := by
+  have h := compStmt_tail_iff rt st cs
+  simp only [HasTail, IsTailReturn] at h
+  rw [h]
+  constructor
+  · rintro ⟨es, hst, e, hes, hc, hp⟩; exact ⟨e, by rw [hst, hes], hc, hp⟩
+  · rintro ⟨e, hst, hc, hp⟩; exact ⟨[e], hst, e, rfl, hc, hp⟩
+
+end CompileTime
+
 /-! ### defects of the tree before today's repairs, as machine-checked witnesses -/
 
 /-- a registry given by its first slots (Go nil beyond) -/
@@ -698,5 +658,102 @@ example : RetAvail exReg 1 3 [some (.int 10), none] ∧ RetAvail exReg 1 0 [some
 example : (baseSelectNum (-1) 4).toOption = some 1 ∧ (baseSelectNum 2 4).toOption = some 2 ∧
     (baseSelectNum 4 2).toOption = some 0 ∧ (baseSelectNum 0 1).toOption = none := by decide
 example : (baseUnpack (fun i => some (.int i)) 2 3) = ([some (.int 2), some (.int 3)], 2) := by decide
+
+/-! ### non-vacuity of the compile-time theorems: a concrete environment, activation and programs -/
+
+section CompileTimeExamples
+open GLua.CallCompile GLua.CallShapes
+
+/-- callees of the examples: `f1` (hex 6631) a Lua function with one parameter, `f2` a Lua vararg function with one
+    parameter, everything else a host function; each returns its parameters, its extra arguments and 7, and logs
+    what it was called with. -/
+def exInfo (fv : OVal) : FnInfo :=
+  if fv = some (.str "6631") then { np := 1, nur := 3 }
+  else if fv = some (.str "6632") then { np := 1, isVarArg := 3, nur := 3 }
+  else { isG := true }
+
+abbrev ExW := List (OVal × List OVal × List OVal)
+
+def exEnv : MEnv ExW :=
+  canonEnv (fun _ g => some (.str g)) (fun w _ _ => w) (fun _ m _ => some (.str m)) exInfo
+    (fun fv params extra w => (params ++ extra ++ [some (.int 7)], w ++ [(fv, params, extra)]))
+
+def exFrame : Frame := { fn := { np := 0, isVarArg := 3, nur := 8 }, base := 0, localBase := 3, returnBase := 0, nargs := 2 }
+
+/-- the main chunk called with the extra arguments 10, 20: they sit below its `LocalBase`, its registers are nil -/
+def exState : MS ExW :=
+  { st := { reg := { arr := fun i => if i = 0 then some (some (.ref 0)) else if i = 1 then some (some (.int 10))
+                                     else if i = 2 then some (some (.int 20)) else if i < 11 then lnil else goNil,
+                     top := 11 },
+            stack := [exFrame] },
+    w := [], heap := [] }
+
+-- the hypotheses about the abstract callees are satisfiable …
+example : BodiesOK exEnv := canonEnv_bodiesOK _ _ _ _ _
+example : InfoWF exEnv := by
+  intro fv hG
+  simp only [exEnv, canonEnv, exInfo] at hG ⊢
+  by_cases h1 : fv = some (.str "6631")
+  · simp only [h1, if_true]; decide
+  · by_cases h2 : fv = some (.str "6632")
+    · simp only [h2, if_true]; decide
+    · simp only [h1, h2, if_false] at hG; cases hG
+
+-- … and so is the activation invariant
+example : Inv exFrame [] 0 (fun _ => none) [some (.int 10), some (.int 20)] exState :=
+  ⟨rfl, by decide, rfl, fun r hr => by omega, by unfold VarargFrame; decide, by decide, by decide, by decide⟩
+
+-- `local a, b, c = f1(1, ...)`: f1 (one parameter) sees exactly 1; its results 1, 7 are padded with nil
+def exLocal : List Instr × CState :=
+  compRegAssignment 0 3 [.call false (.atom (.glob "6631")) [.atom (.num 1), .dots false]] 0 3 {}
+example : Fits exLocal.1 := by decide
+example : exLocal.1 = [.getglobal 0 0, .loadk 1 1, .vararg 2 0, .call 0 0 4] := by decide
+example : (exec exEnv exLocal.2.consts (exLocal.1.map Instr.mask) exState).toOption.map
+      (fun s => s.st.reg.window 3 3) =
+    some [some (some (.int 1)), some (some (.int 7)), some none] := by decide
+example : (exec exEnv exLocal.2.consts (exLocal.1.map Instr.mask) exState).toOption.map (fun s => s.w) =
+    some [(some (.str "6631"), [some (.int 1)], [])] := by decide
+
+-- `local a, b = h(f2(...), (h()))`: f2 (vararg, one parameter) gets 10 / 20, contributes ONE value; `(h())` one value
+def exNested : List Instr × CState :=
+  compRegAssignment 0 2 [.call false (.atom (.glob "68")) [.call false (.atom (.glob "6632")) [.dots false],
+    .call true (.atom (.glob "68")) []]] 0 2 {}
+example : Fits exNested.1 := by decide
+example : (exec exEnv exNested.2.consts (exNested.1.map Instr.mask) exState).toOption.map (fun s => s.w) =
+    some [(some (.str "6632"), [some (.int 10)], [some (.int 20)]),
+          (some (.str "68"), [], []),
+          (some (.str "68"), [], [some (.int 10), some (.int 7)])] := by decide
+example : (exec exEnv exNested.2.consts (exNested.1.map Instr.mask) exState).toOption.map
+      (fun s => s.st.reg.window 3 2) = some [some (some (.int 10)), some (some (.int 7))] := by decide
+
+-- `return {h(), 5, x = 6, ...}`: 7 at 1, 5 at 2, then the varargs 10, 20 at 3, 4; the keyed store aside
+def exCtor : Res :=
+  compExpr 0 (.tbl [none, none, some (.str "78"), none]
+    [.call false (.atom (.glob "68")) [], .atom (.num 5), .atom (.num 6), .dots false]) 0 (ecnone 0) {}
+example : Fits exCtor.code := by decide
+example : (exec exEnv exCtor.cs.consts (exCtor.code.map Instr.mask) exState).toOption.map (fun s => s.heap) =
+    some [{ arr := [(1, some (.int 7)), (2, some (.int 5)), (3, some (.int 10)), (4, some (.int 20))],
+            keyed := [(some (.str "78"), some (.int 6))] }] := by decide
+
+-- `return f2(1, ...)` (a tail call to a vararg Lua function): f2 sees 1 / 10, 20; the caller's caller (NRet = all)
+-- finds 1, 10, 20, 7 at ReturnBase 0 and the frame is gone
+def exTail : List Instr × CState :=
+  compReturn 0 [.call false (.atom (.glob "6632")) [.atom (.num 1), .dots false]] {}
+example : Fits exTail.1 := by decide
+example : (exec exEnv exTail.2.consts (exTail.1.map Instr.mask) exState).toOption.map
+      (fun s => (s.st.reg.window 0 s.st.reg.top, s.st.stack.length, s.done)) =
+    some ([some (some (.int 1)), some (some (.int 10)), some (some (.int 20)), some (some (.int 7))], 0, true) := by decide
+example : (exec exEnv exTail.2.consts (exTail.1.map Instr.mask) exState).toOption.map (fun s => s.w) =
+    some [(some (.str "6632"), [some (.int 1)], [some (.int 10), some (.int 20)])] := by decide
+
+-- `return h(1)` is a tail call, `return (h(1))` and `return 2, h(1)` are not
+example : (compReturn 0 [.call false (.atom (.glob "68")) [.atom (.num 1)]] {}).1 =
+    [.getglobal 0 0, .loadk 1 1, .tailcall 0 2 0, .ret 0 0] := by decide
+example : (compReturn 0 [.call true (.atom (.glob "68")) [.atom (.num 1)]] {}).1 =
+    [.getglobal 0 0, .loadk 1 1, .call 0 2 2, .ret 0 0] := by decide
+example : (compReturn 0 [.atom (.num 2), .call false (.atom (.glob "68")) [.atom (.num 1)]] {}).1 =
+    [.loadk 0 0, .getglobal 1 1, .loadk 2 2, .call 1 2 0, .ret 0 0] := by decide
+
+end CompileTimeExamples
 
 end GLua.Props.C02
